@@ -28,19 +28,27 @@ pub fn check(_ctx: &Ctx, st: &mut Stats, c: &Case) {
         st.violate("seven_entries", c, json!({"keys": format!("{keys:?}")}));
         return;
     }
-    if res.values().any(|x| x.map(|t| t.extreme).unwrap_or(false)) {
+    let with_policy = c.p.policy != "None";
+    if with_policy {
+        st.count("cases_under_a_policy(seven entries; ordering of the unflagged entries)");
+    } else if res.values().any(|x| x.map(|t| t.extreme).unwrap_or(false)) {
         st.violate("flagged_without_policy", c, json!({"result": res_json(&res)}));
     }
     let Some(Ok(dh)) = res.get(&Prayer::Dhuhr).copied() else {
         st.violate("dhuhr_missing", c, json!({"result": res_json(&res)}));
         return;
     };
+    if with_policy && dh.extreme {
+        // Dhuhr itself substituted (all-prayers policies): no conventional anchor to order against
+        st.count("dhuhr_flagged_under_policy(order not judged)");
+        return;
+    }
     let dhs = secs(&dh);
     // offsets from that day's Dhuhr in (-12h, 12h]
     let offs: Vec<Option<f64>> = SEVEN
         .iter()
         .enumerate()
-        .map(|(i, pr)| res[pr].ok().map(|t| if i < 3 { off_before(secs(&t), dhs) } else { off(secs(&t), dhs) }))
+        .map(|(i, pr)| res[pr].ok().filter(|t| !(with_policy && t.extreme)).map(|t| if i < 3 { off_before(secs(&t), dhs) } else { off(secs(&t), dhs) }))
         .collect();
     let present = offs.iter().filter(|x| x.is_some()).count();
     st.count(&format!("entries_present.{present}"));
@@ -80,6 +88,11 @@ fn gen_case(r: &mut Rng) -> Case {
     }
     if r.chance(0.3) {
         p.hanafi = Some(r.chance(0.5));
+    }
+    if r.chance(0.25) {
+        let pol = *r.pick(&POLICIES);
+        let pl = if is_nearest_lat(pol) { Some(r.range(-60.0, 60.0)) } else { None };
+        p = p.with_policy(pol, pl);
     }
     Case {
         site: Site::new(gen::lat_within(r, 60.0), lon, gen::any_elev(r), gmt),
